@@ -75,6 +75,13 @@ def r_rule_dependency(ck: Checker) -> None:
     ck.need(len(h) == 1, "defining rules registered at one site")
     hb = [c for c in attr_calls(func, "append") if unparse(c.func.value).startswith("self.head2bodies[")]  # type: ignore[attr-defined]
     ck.need(len(hb) == 1, "defining bodies registered at one site")
+    prg_loop = [lp for lp in find_nodes(func.node, lambda n: isinstance(n, ast.For)) if enclosing_loop(func, lp) is None and any(h[0] is x for x in ast.walk(lp))]
+    ck.need(len(prg_loop) == 1 and isinstance(prg_loop[0].target, ast.Name), "definitions are registered in the loop over the program")
+    head_loop = enclosing_loop(func, h[0])
+    stm_ = prg_loop[0].target.id  # type: ignore[union-attr]
+    okr, nr = every_iteration_reaches(ck, func, prg_loop[0], head_loop, Pins.of(vals={f"{stm_}.ast_type": "ASTType.Rule"})) if head_loop is not None and head_loop is not prg_loop[0] else (False, 0)
+    ck.add("every defining rule is looked at, whatever its body (facts included)", okr and nr > 0, func, h[0], f"for every Rule statement the loop over its derivable heads is reached: {okr}",
+           "consumers count the definitions: a fact or body-less choice that is not registered makes a predicate with one further rule look singly defined", rule="C15.definitions")
     for site, what in ((h[0], "rule"), (hb[0], "body")):
         lp = enclosing_loop(func, site)
         ok_all, n_it = every_iteration_reaches(ck, func, lp, site, None) if lp is not None else (False, 0)
@@ -187,6 +194,10 @@ def r_padding(ck: Checker) -> None:
     ck.add("padding length derives from the sibling tuples' lengths", ok, func, acc[0], f"`{txt}`",
            "the pad must make the new tuples at least as long as every sibling tuple; taking len(condition) instead lets a padded tuple collide with a sibling tuple of the same length",
            rule="C15.G6.padding")
+    rb = single_def(func, "rbody")
+    want_rb = f"[blit for blit in {func.params()[1]}.body if not (blit.ast_type == ASTType.Literal and blit.atom.ast_type == ASTType.BodyAggregate)]"
+    ck.add("the helper's whole body except its aggregate literal goes into every unfolded element", rb is not None and same(unparse(rb), want_rb), func, func.node, f"rbody = `{short(unparse(rb), 140) if rb is not None else None}`",
+           "comparisons and assignments of the helper (`A <= L`) restrict when it derives anything: dropping them makes the unfolded elements count tuples the helper never produced", rule="C15.helper-body")
     pads = [c for c in attr_calls(func, "extend") if "unique" in unparse(c)]
     ck.need(len(pads) == 1, "tuples are padded with the constant `unique`")
     mn = ck.func(f"{CLS}.inline_minimize")
@@ -268,9 +279,9 @@ def r_transform_args(ck: Checker) -> None:
 
 RULES = [
     Rule("C15.A.is-single", P, r_is_single),
-    Rule("C15.uses", P, r_rule_dependency, extra={p_: ("every defining",) for p_ in ("C12", "C13", "C09", "C06", "C02")}),
+    Rule("C15.uses", P, r_rule_dependency, extra={**{p_: ("every defining",) for p_ in ("C12", "C13", "C09", "C06", "C02")}, "C07": ("the single user is a rule or an objective",)}),
     Rule("C15.TABLE.good", PG, r_good_table),
-    Rule("C15.G6.padding", PG, r_padding),
+    Rule("C15.G6.padding", PG + ("C15",), r_padding),
     Rule("C15.G.inline-minimize", PG, r_inline_minimize),
     Rule("C15.A7.negative-use", P, r_negative_use),
     Rule("C15.A5.transform-args", P + ("C07",), r_transform_args),
